@@ -492,9 +492,11 @@ def run_shard(shard) -> Result:
                     ch = Chooser([], rng)
                     judge(cfg, ch, run_schedule(cfg, ch), res, hashes)
             if len(res.samples) < 2:
-                ch = Chooser([])
-                run = run_schedule(cfg, ch)
-                res.sample({"config": cfg_name(cfg), "history": [list(map(str, e[1:])) for e in run["events"]][:14], "outcome": run["outcome"]})
+                # a representative history for the evidence: of a few seeded random schedules the one with most events
+                srng = random.Random(f"sample-{cfg_name(cfg)}")
+                runs = [run_schedule(cfg, Chooser([], srng)) for _ in range(5)]
+                run = max(runs, key=lambda r: len(r["events"]))
+                res.sample({"config": cfg_name(cfg), "history": [list(map(str, e[1:])) for e in run["events"]][:40], "outcome": run["outcome"]})
     except Exception as e:
         res.inconclusive.append(f"oracle crashed: {type(e).__name__}: {e}\n{traceback.format_exc()[-1500:]}")
     return res
